@@ -25,11 +25,19 @@ Theorem C13_rejects_rendered :
   forall fuel st index acc st' rejs,
   rollback_and_render_rej fuel st index acc = ROk (st', rejs) ->
   (length (a_applied st) < fuel)%nat ->
-  exists l, rejs = acc ++ l /\ a_applied st' = below (a_applied st) index /\
+  exists l, rejs = fold_left (fun a r => add_rej (fst r) (snd r) a) l acc /\
+            a_applied st' = below (a_applied st) index /\
             Forall2 (fun s r => fst r = rej_name (st_target s) /\ write_rej_bytes s = ROk (snd r))
                     (rejected (a_applied st) index) l.
 Proof. exact render_spec. Qed.
 Print Assumptions C13_rejects_rendered.
+
+(* rejects of several file patches for one file share one reject file *)
+Theorem C13_one_reject_file_per_name :
+  forall l acc, NoDup (map fst acc) ->
+  NoDup (map fst (fold_left (fun a r => add_rej (fst r) (snd r) a) l acc)).
+Proof. exact rendered_names_distinct. Qed.
+Print Assumptions C13_one_reject_file_per_name.
 
 Theorem C13_only_failing_patch_and_failed_files :
   forall stack index s, In s (rejected stack index) ->
